@@ -234,14 +234,32 @@ def plan_c19(ctx):
         return agg, "feature-set builds", [], {"builds": builds}
     # 2. the worker three times
     bins = {}
+    failed = {}
     for name, flags in (("core", []), ("alloc", ["--features", "tz-alloc"]), ("std", ["--features", "tz-std"])):
         td = os.path.join(ctx.verif, "target", f"feat-{name}")
         rc, out = o.sh(["cargo", "build", "--offline", "--release"] + flags + ["--target-dir", td], cwd=feat_dir)
+        builds[f"consumer[{name}]"] = "builds" if rc == 0 else "FAILS"
         if rc != 0:
-            ctx.harness_errors.append(f"featsim[{name}] does not build: {out[-600:]}")
+            failed[name] = out
         bins[name] = os.path.join(td, "release", "featsim")
-    if ctx.harness_errors:
+    if failed:
+        if "std" in failed:
+            # the consumer does not even build against the full-featured crate: the API changed for everyone
+            ctx.harness_errors.append(f"featsim[std] does not build: {failed['std'][-600:]}")
+        else:
+            # tz-rs builds alone in every configuration and the consumer builds with std, but the same consumer
+            # code (api.rs: the API documented as available without std/alloc) does not build in a reduced one
+            for name, out in failed.items():
+                os.makedirs(ctx.replays, exist_ok=True)
+                path = os.path.join(ctx.replays, f"C19-consumer-{name}.build.txt")
+                with open(path, "w") as f:
+                    f.write(f"# property C19\n# oracle C19.build\n# replay: cd /verif/featsim && cargo build --offline --release {'--features tz-' + name if name != 'core' else ''}\nconsumer {name}\n# ---- compiler output\n")
+                    for line in out.splitlines()[-80:]:
+                        f.write("# " + line + "\n")
+                errs = [l for l in out.splitlines() if l.startswith("error")]
+                ctx.found.append({"oracle": "C19.build", "sig": f"consumer-{name}", "detail": f"tz-rs builds alone with feature set {name}, and a consumer of the configuration-independent API builds with std, but the same consumer does not build with feature set {name}: " + " | ".join(errs[:4])[:700], "replay": path})
         agg = o.collect(ctx)
+        agg["evaluations"] = max(agg["evaluations"], len(builds))
         return agg, "feature-set builds", [], {"builds": builds}
     # 3. same scenarios in all three workers
     total = o.BUDGET["C19"][ctx.tier]
@@ -348,6 +366,15 @@ def replay_special(verif, path):
         print(out[-2000:])
         if rc != 0:
             print(f"VIOLATION property=C15 replay={path}")
+            return 1
+        return 0
+    if path.endswith(".build.txt") and "consumer" in kv:
+        name = kv["consumer"]
+        flags = [] if name == "core" else ["--features", "tz-" + name]
+        rc, out = o.sh(["cargo", "build", "--offline", "--release"] + flags + ["--target-dir", os.path.join(verif, "target", f"feat-{name}")], cwd=os.path.join(verif, "featsim"))
+        print(out[-2000:])
+        if rc != 0:
+            print(f"VIOLATION property=C19 replay={path}")
             return 1
         return 0
     if path.endswith(".build.txt"):
